@@ -112,7 +112,7 @@ static Src make_src(Rng &r, long idx, bool square, bool sorted_only) {
 static bool is_sorted(const Csr<double> &A) { for (size_t i = 0; i < A.n; ++i) for (ptrdiff_t j = A.ptr[i] + 1; j < A.ptr[i + 1]; ++j) if (A.col[j - 1] >= A.col[j]) return false; return true; }
 
 static void sub_adapters() {
-    long N = vf::tier(120, 2500);
+    long N = vf::tier(300, 6000);
     for (long idx = 0; idx < N; ++idx) {
         if (!vf::selected("adapters", idx)) continue;
         Rng r(vf::case_seed("adapters", idx)); Src S = make_src(r, idx, true, false); const Csr<double> &A = S.A; size_t n = A.n; bool sorted = is_sorted(A);
@@ -192,7 +192,7 @@ template <int b> void block_variant(Case &c, const Src &S, Rng &r) {
     catch (const std::exception &e) { c.fail(nm + ":exception", e.what()); }
 }
 static void sub_block() {
-    long N = vf::tier(90, 1500);
+    long N = vf::tier(240, 4000);
     for (long idx = 0; idx < N; ++idx) {
         if (!vf::selected("block_adapter", idx)) continue;
         Rng r(vf::case_seed("block_adapter", idx)); int b = 2 + idx % 3; Src S; S.exact = r.coin(0.5); size_t nb = idx % 5 == 0 ? r.range(20, 80) : r.range(1, 12), n = nb * b;
@@ -216,7 +216,7 @@ static Csr<double> solve_matrix(Rng &r, int fam, int nmin, int nmax, std::string
 }
 
 static void sub_zerocopy() {
-    long N = vf::tier(60, 800);
+    long N = vf::tier(160, 2400);
     for (long idx = 0; idx < N; ++idx) {
         if (!vf::selected("zerocopy", idx)) continue;
         Rng r(vf::case_seed("zerocopy", idx)); bool solve = idx % 4 == 0;
@@ -312,7 +312,7 @@ template <class Ord> void reorder_case(Case &c, const std::string &nm, const Csr
     }
 }
 static void sub_reorder() {
-    long N = vf::tier(60, 900);
+    long N = vf::tier(150, 2400);
     for (long idx = 0; idx < N; ++idx) {
         if (!vf::selected("reorder", idx)) continue;
         Rng r(vf::case_seed("reorder", idx)); bool solve = idx % 3 == 0, exact = !solve && r.coin(0.6); std::string fam; Csr<double> A;
@@ -330,7 +330,7 @@ static void sub_reorder() {
 // scale_diagonal
 //---------------------------------------------------------------------------
 static void sub_scale() {
-    long N = vf::tier(60, 900);
+    long N = vf::tier(150, 2400);
     for (long idx = 0; idx < N; ++idx) {
         if (!vf::selected("scale", idx)) continue;
         Rng r(vf::case_seed("scale", idx)); bool solve = idx % 3 == 0; std::string fam; Csr<double> A;
